@@ -698,3 +698,35 @@ func TestPenalty(t *testing.T) {
 		t.Errorf("n3 = %d", n3)
 	}
 }
+
+func TestPenaltyN3Readings(t *testing.T) {
+	// lone 1011101 at the left edge of an otherwise dark row, followed by dark:
+	// only the quiet zone can supply the light area.
+	m := newGrid(21)
+	for y := range m {
+		for x := range m[y] {
+			m[y][x] = true
+		}
+	}
+	m[5][1], m[5][5] = false, false
+	if got := PenaltyN3(m, N3Reading{}); got != 0 {
+		t.Errorf("strict: %d", got)
+	}
+	if got := PenaltyN3(m, N3Reading{QuietZoneLight: true}); got != 40 {
+		t.Errorf("quiet: %d", got)
+	}
+	// 0000 1011101 0000 inside the symbol
+	for x := 0; x < 21; x++ {
+		m[9][x] = true
+	}
+	for _, x := range []int{2, 3, 4, 5, 7, 11, 13, 14, 15, 16} {
+		m[9][x] = false
+	}
+	// columns are all-dark except these cells, so only row 9 contributes
+	if got := PenaltyN3(m, N3Reading{}); got != 40 {
+		t.Errorf("strict both sides: %d", got)
+	}
+	if got := PenaltyN3(m, N3Reading{CountBothSides: true}); got != 80 {
+		t.Errorf("twice both sides: %d", got)
+	}
+}
